@@ -253,6 +253,32 @@ class ST:
             return _index_by_tensor(I, self, idx)
         if isinstance(idx, ST) and idx.dtype == "bool" and len(idx.shape) == len(self.shape):  # t[mask] = t.masked_select(mask)
             return _masked_select(I, self, idx)
+        if (idx is None) or (isinstance(idx, tuple) and any(k is None for k in idx)):
+            # t[:, None], t[..., None], t[None]: the positions of None become new axes of extent 1 (unsqueeze), the rest indexes as usual
+            items = idx if isinstance(idx, tuple) else (idx,)
+            rest = tuple(k for k in items if k is not None)
+            n_named = sum(1 for k in rest if k is not Ellipsis)
+            if any(isinstance(k, ST) and len(k.shape) > 0 for k in rest):
+                raise Unsupported("None together with a tensor index")
+            base = self.__vc_getitem__(I, rest) if rest else self
+            full = []  # per item of `items`: 'new' | 'kept' (slice -> output axis) | 'dropped' (integer)
+            for k in items:
+                if k is None:
+                    full.append("new")
+                elif k is Ellipsis:
+                    full.extend(["kept"] * (len(self.shape) - n_named))
+                elif isinstance(k, slice):
+                    full.append("kept")
+                else:
+                    full.append("dropped")
+            out, pos = base, 0
+            for kind in full:
+                if kind == "new":
+                    out = _unsqueeze(I, out, pos)
+                    pos += 1
+                elif kind == "kept":
+                    pos += 1
+            return out
         idx = self._norm_idx(idx)
         # a 0-dim integer tensor used as an index or slice bound stands for its element (torch's __index__)
         sc = lambda v: v.elem() if (isinstance(v, ST) and len(v.shape) == 0) else v
@@ -1512,6 +1538,37 @@ def f_max(I, a, b=None, **k):
 
 METH["softmax"] = f_softmax
 FUNCS.update({"torch.nn.functional.one_hot": f_one_hot, "torch._C._nn.one_hot": f_one_hot, "torch.stack": f_stack, "torch.cat": f_cat, "torch.ones": f_ones, "torch.zeros": f_zeros, "torch.nn.functional.softmax": f_softmax, "torch.softmax": f_softmax, "torch.pow": f_pow, "torch.matmul": lambda I, a, b: _matmul(I, a, b), "torch.empty": f_empty, "torch.arange": f_arange, "torch.full": f_full, "torch.full_like": f_full_like, "torch.where": f_where, "torch.min": f_min, "torch.isfinite": f_isfinite, "torch.zeros_like": f_zeros_like, "torch.as_tensor": f_as_tensor, "torch.max": f_max, "torch.tensor": f_tensor})
+
+
+# ---- spellings of operations that already exist (a maintainer's equivalent rewrite must not leave the verified subset)
+METH["neg"] = METH["negative"] = lambda I, t: ST.ew(I, ct.sc_neg, t, dtype=t.dtype)
+METH["logical_not"] = lambda I, t: ST.ew(I, ct.sc_not, t, dtype="bool")
+METH["logical_and"] = METH["bitwise_and"] = lambda I, t, o: t.__vc_binop__(I, ast.BitAnd(), o, False)
+METH["logical_or"] = METH["bitwise_or"] = lambda I, t, o: t.__vc_binop__(I, ast.BitOr(), o, False)
+METH["where"] = lambda I, t, c, o: f_where(I, c, t, o)  # t.where(c, o) = torch.where(c, t, o)
+METH["isfinite"] = lambda I, t: f_isfinite(I, t)
+METH["subtract"], METH["multiply"], METH["divide"], METH["true_divide"] = METH["sub"], METH["mul"], METH["div"], METH["div"]
+METH["greater"], METH["greater_equal"], METH["less"], METH["less_equal"], METH["not_equal"] = METH["gt"], METH["ge"], METH["lt"], METH["le"], METH["ne"]
+METH["minimum"] = lambda I, t, o: f_min(I, t, o)
+METH["maximum"] = lambda I, t, o: f_max(I, t, o)
+FUNCS["torch.minimum"] = lambda I, a, b: f_min(I, a, b)
+FUNCS["torch.maximum"] = lambda I, a, b: f_max(I, a, b)
+
+
+def _as_function(name):
+    def f(I, t, *a, **k):
+        if not isinstance(t, ST):
+            raise Unsupported("torch.%s with a non-tensor first argument next to a symbolic-shape tensor" % name)
+        return METH[name](I, t, *a, **k)
+    return f
+
+
+for _n in ("neg", "negative", "logical_not", "logical_and", "logical_or", "bitwise_and", "bitwise_or", "eq", "ne", "lt", "le", "gt", "ge", "greater", "greater_equal",
+           "less", "less_equal", "not_equal", "add", "sub", "mul", "div", "subtract", "multiply", "divide", "true_divide", "unsqueeze", "squeeze", "sum", "any", "all",
+           "clamp", "clip", "clamp_min", "clamp_max", "masked_select", "masked_fill", "masked_scatter", "gather", "scatter", "flatten", "reshape", "transpose", "t",
+           "sort", "topk", "tril", "triu", "log_softmax", "mm", "square", "sqrt", "repeat_interleave", "clone", "numel"):
+    if _n in METH and "torch." + _n not in FUNCS:
+        FUNCS["torch." + _n] = _as_function(_n)
 
 
 def stubs():
